@@ -2325,14 +2325,15 @@ class Recipe:
                 self.used.add(dest_name)
                 if isinstance(solvent, Container):
                     # containers and such can change while baking the recipe
-                    solvent = self.results[solvent.name]
-                    step.objects_used.add(solvent.name)
+                    solvent_name = solvent.name
+                    solvent = self.results[solvent_name]
+                    step.objects_used.add(solvent_name)
                     step.frm[0] = solvent
                 results = Container.create_solution(solute, solvent, dest_name, **kwargs)
                 if isinstance(solvent, Container):
-                    self.used.add(solvent.name)
-                    self.results[solvent.name], self.results[dest_name] = results
-                    step.frm[1] = self.results[solvent.name]
+                    self.used.add(solvent_name)
+                    self.results[solvent_name], self.results[dest_name] = results
+                    step.frm[1] = self.results[solvent_name]
                 else:
                     self.results[dest_name] = results
                 step.substances_used = self.results[dest_name].get_substances()
